@@ -7,7 +7,9 @@
 //	       totals are written next to the recorded ones (out + ".prom.json").
 //	       -own-waits: before an environment action of connection c only c's observations are waited for (used for
 //	       behaviours merged from many single-connection behaviours: hundreds of connections open at once)
-//	c18 -family F -out res.json      crafted authenticated inputs / target behaviours / shutdown orders with leak accounting
+//	       -leak: C18 accounting: recovered panics (slog records "Panic in TCP handler"), goroutines with frames in the
+//	       repository's packages and open descriptors after all behaviours (out + ".leak.json"); an unrecovered panic
+//	       kills this process, which the check sees as a non-zero exit status
 //
 // The driver never judges a property; it only records (exit 3 = harness failure).
 package main
@@ -15,16 +17,19 @@ package main
 import (
 	"encoding/json"
 	"flag"
+	"net"
 	"os"
+	"runtime/debug"
 	"sort"
 	"sync"
+	"time"
 
 	"verifharness/hx"
 )
 
 func main() {
 	if len(os.Args) < 2 {
-		hx.Fatal("usage: tcpconn replay|c18 ...")
+		hx.Fatal("usage: tcpconn replay ...")
 	}
 	mode := os.Args[1]
 	fs := flag.NewFlagSet(mode, flag.ExitOnError)
@@ -39,7 +44,7 @@ func main() {
 	par := fs.Int("par", 8, "behaviours executed concurrently")
 	prom := fs.Bool("prom", false, "also report to the real Prometheus collectors")
 	ownWaits := fs.Bool("own-waits", false, "wait only for observations of the acting connection")
-	family := fs.String("family", "", "c18: scenario family")
+	leak := fs.Bool("leak", false, "C18 accounting: panics, goroutines, descriptors")
 	nkeys := fs.Int("nkeys", 0, "key list size (0 = seed-chosen from 1,3,100)")
 	cipher := fs.String("cipher", "", "force one cipher for all keys")
 	baseIdx := fs.Int("base-idx", 0, "index of the first behaviour (seeds the per-behaviour randomness; used to re-run one behaviour)")
@@ -51,6 +56,22 @@ func main() {
 		hx.ReadJSON(*in, &behs)
 		opt := options{seed: *seed, timeoutMs: *timeoutMs, unitMs: *unitMs, awaitMs: *awaitMs, holdMs: *holdMs, hangMs: *hangMs,
 			nkeys: *nkeys, cipher: *cipher, ownWaits: *ownWaits}
+		var cap *capture
+		fd0 := 0
+		if *leak {
+			cap = installCapture()
+			// no garbage collection: a socket the server forgot to close must stay open (a finalizer would close it)
+			debug.SetGCPercent(-1)
+			// warm up the runtime's own descriptors (netpoller) before taking the baseline
+			if ln, err := net.Listen("tcp", "127.0.0.1:0"); err == nil {
+				if c, err := net.Dial("tcp", ln.Addr().String()); err == nil {
+					c.Close()
+				}
+				ln.Close()
+			}
+			time.Sleep(20 * time.Millisecond)
+			fd0 = fdCount()
+		}
 		var pm *promSink
 		if *prom {
 			pm = newPromSink()
@@ -86,6 +107,17 @@ func main() {
 			tr.Emit(toMap(r.beh))
 		}
 		tr.Close()
+		if *leak {
+			gs, fds := settle(fd0, 3*time.Second)
+			if gs == nil {
+				gs = []string{}
+			}
+			ps := cap.panics()
+			if ps == nil {
+				ps = []string{}
+			}
+			hx.WriteJSON(*out+".leak.json", leakReport{FdBefore: fd0, FdAfter: fds, Goroutines: gs, Panics: ps, Warnings: len(cap.recs)})
+		}
 		if pm != nil {
 			var all []*caseRec
 			for _, r := range results {
@@ -93,8 +125,6 @@ func main() {
 			}
 			hx.WriteJSON(*out+".prom.json", map[string]any{"gathered": pm.gather(), "recorded": recordedTotals(all)})
 		}
-	case "c18":
-		runC18(*family, *seed, *out)
 	default:
 		hx.Fatal("unknown mode %s", mode)
 	}
